@@ -69,6 +69,8 @@ type Func struct {
 
 	g    *Graph
 	defs map[types.Object][]Def
+	// rdCache: reaching-definition answers per use (flow.go)
+	rdCache map[*ast.Ident]*Def
 }
 
 func (f *Func) Info() *types.Info { return f.Pkg.TypesInfo }
